@@ -125,7 +125,8 @@ func runC08(c *core.Ctx) *core.Violation {
 		cfg.Sticky = 500 + t.Choose(450)
 	}
 	netMode := t.Choose(2)
-	c.Sample = map[string]interface{}{"o0": o0, "resume": resume, "start": []string{"fullresync", "continue"}[startMode], "commands": len(cmds), "stream_len": len(stream),
+	slowTarget := t.Choose(4) == 3
+	c.Sample = map[string]interface{}{"slow_target": slowTarget, "o0": o0, "resume": resume, "start": []string{"fullresync", "continue"}[startMode], "commands": len(cmds), "stream_len": len(stream),
 		"cuts_at_stream_pos": fmt.Sprint(cutPos), "cut_is_fin": fmt.Sprint(finCut), "refused_redials": refuse, "last_release": lastRelease.String(), "stalls": stalls, "net_mode": netMode}
 
 	var e *SyncEnv
@@ -135,6 +136,12 @@ func runC08(c *core.Ctx) *core.Violation {
 		if netMode == 1 {
 			p := simnet.Profile{Split: 400, Latency: 300, MaxDelayMs: 40, ShortRead: 100}
 			e.Src.L.ToClient, e.Src.L.ToServer = p, p
+		}
+		if slowTarget {
+			// a slow target: the full phase (RDB restore) is still running while the source already streams, drops
+			// the link and takes the tool back — the command parser has not started yet
+			p := simnet.Profile{Latency: 1000, MaxDelayMs: 200 + t.Choose(1500)}
+			e.Tgt.L.ToClient, e.Tgt.L.ToServer = p, p
 		}
 		e.Src.O0 = o0
 		e.Src.Stream = stream
